@@ -975,4 +975,17 @@ def selector_suite(tier, seed):
             d["endpoints"], d["connections"] = eps, conns
             d["routers"] = [{"name": "router", "tree": list(levels)}]
             out.append((d, {"topo": "seltree", "levels": list(levels)}))
+        # router-router connections that name a direction at BOTH ends, the two not being opposites (an L-shaped
+        # composition, explicitly numbered hub ports): each end occupies exactly the port it names
+        for (sd, dd, deg) in ((("East", "North", 5), (2, 5, 6)) if tier == "quick" else
+                              (("East", "North", 5), (2, 5, 6), ("West", "West", 5), (0, 3, 5), ("South", 1, 5))):
+            nw = rng.random() < 0.25
+            d = header("bothdirs", nw, algo)
+            alloc = Alloc(rng)
+            d["endpoints"] = [mk_ep("epa", "ms", nw, rng, alloc), mk_ep("epb", "ms", nw, rng, alloc), mk_ep("epc", "s", nw, rng, alloc)]
+            d["routers"] = [{"name": "ra", "degree": deg}, {"name": "rb", "degree": deg}]
+            d["connections"] = [{"src": "ra", "dst": "rb", "src_dir": sd, "dst_dir": dd},
+                                {"src": "epa", "dst": "ra", "dst_dir": "Eject"}, {"src": "epb", "dst": "rb", "dst_dir": "Eject"},
+                                {"src": "epc", "dst": "rb"}]
+            out.append((d, {"topo": "both-directions", "src_dir": sd, "dst_dir": dd}))
     return out
